@@ -22,6 +22,8 @@ func main() {
 		stackMain(os.Args[2:])
 	case "graph":
 		graphMain(os.Args[2:])
+	case "caseconv":
+		ccMain(os.Args[2:])
 	default:
 		fmt.Fprintln(os.Stderr, "unknown subcommand", os.Args[1])
 		os.Exit(2)
